@@ -58,7 +58,7 @@ impl std::future::Future for YieldOnce {
 fn leaf_future(ctx: &Ctx, env: &mut Env, leaf: &Leaf) -> BoxFuture<'static, u32> {
     match leaf {
         Leaf::Req { tag, src, .. } => {
-            let op = VOp { o: env.stamp(), tag: *tag, val: env.src(src) };
+            let op = VOp { o: env.stamp(), tag: *tag, val: env.src(src), live: Default::default() };
             ctx.request_from_shell(op).boxed()
         }
         Leaf::Next { s } => {
@@ -84,18 +84,18 @@ fn run_script(ctx: Ctx, code: Arc<Vec<Instr>>, mut env: Env) -> BoxFuture<'stati
                 }
                 Instr::Notify { tag, src } => {
                     let val = env.src(src);
-                    ctx.notify_shell(VOp { o: env.stamp(), tag: *tag, val }).await;
+                    ctx.notify_shell(VOp { o: env.stamp(), tag: *tag, val, live: Default::default() }).await;
                     pc += 1;
                 }
                 Instr::Req { tag, src, dst, .. } => {
                     let val = env.src(src);
-                    let op = VOp { o: env.stamp(), tag: *tag, val };
+                    let op = VOp { o: env.stamp(), tag: *tag, val, live: Default::default() };
                     env.regs[*dst as usize] = ctx.request_from_shell(op).await;
                     pc += 1;
                 }
                 Instr::Open { tag, src, s, .. } => {
                     let val = env.src(src);
-                    let op = VOp { o: env.stamp(), tag: *tag, val };
+                    let op = VOp { o: env.stamp(), tag: *tag, val, live: Default::default() };
                     env.streams[*s as usize] = Some(Arc::new(Mutex::new(ctx.stream_from_shell(op).boxed())));
                     pc += 1;
                 }
